@@ -10,6 +10,12 @@ open Sodg Cd
 theorem truncated_rejected (g : G Label Hex) (h : WfG g) (k : Nat) (hk : k < (save g).length) :
     load g.n ((save g).take k) = .error .eof := Cd.load_truncated g h k hk
 
+/-- **for every reachable graph and every cut point**: the image of a graph reached by a valid history of
+    representable calls (see `Props.C08.load_save_reachable`) is rejected at every proper prefix -/
+theorem truncated_rejected_reachable {n c : Nat} {g : G Label Hex} {r : R Label Hex} {P : List (Nat × Nat)}
+    (h : ReachW wfLabel wfHex n c g r P) (hc : c < 2 ^ 64) (hn : n < 2 ^ 64) (k : Nat) (hk : k < (save g).length) :
+    load g.n ((save g).take k) = .error .eof := Cd.load_truncated g (ReachW.wfG h hc hn) k hk
+
 /-- the method: a parser is *strict* if, whenever it succeeds it consumed an exact prefix, succeeds identically
     whatever follows, and reports EOF on every proper prefix of what it consumed; the image decoder is strict -/
 theorem decoder_strict (n : Nat) : Strict (decImg n decLabel decHex) := strict_Img n decLabel decHex strict_label strict_hex
